@@ -370,7 +370,7 @@ func c19SampleFiles() []string {
 func c19Codec(c *lab.Ctx) {
 	c.Rule("codec: random valid configurations generated at the JSON level from the struct tags of the v2 type graph (28 root types; every field, durations, byte sizes, CIDR, free-form per-filter maps, dynamic cluster/router directories; independent of the Go marshalers), each through Unmarshal→Marshal→Unmarshal→Marshal (a subset through the ghodss/yaml path); oracles: canonical second dump == first dump, reflective model equivalence (nil≡empty), every input value at a path the tags understand present with equal value and type in the dump; plus every shipped sample file; distinct = (root type, set of schema fields present)")
 	rng := c.Rand("codec")
-	total := c.Pick(10000, 120000)
+	total := c.Pick(10000, 400000)
 	n := total / c.NBatch
 	nodes := make([]*c19Node, len(c19Roots))
 	wsum := 0
@@ -429,7 +429,7 @@ func c19Codec(c *lab.Ctx) {
 		g.dynamic = g.r.Intn(4) == 0
 		g.dynDir = filepath.Join(dynBase, fmt.Sprintf("c%d", i))
 		viaYAML := root.Name == "MOSNConfig" && i%8 == 3
-		fVal := g.value(node, "", 7)
+		fVal := g.value(node, "", 18)
 		fBytes, err := json.Marshal(fVal)
 		if err != nil {
 			panic(err)
